@@ -2787,7 +2787,7 @@ Qed.
 Theorem wstep_preserves w o :
   WInv w -> wop_ok o -> wout_ok (snd (wstep w o)) -> w_dead (fst (wstep w o)) = false -> WInv (fst (wstep w o)).
 Proof.
-  intros [HW Hctx Hlim] Hok. unfold wstep. destruct (w_dead w) eqn:Hdead; [cbn; congruence|].
+  intros HWI Hok. pose proof HWI as [HW Hctx Hlim]. unfold wstep. destruct (w_dead w) eqn:Hdead; [cbn; congruence|].
   destruct o as [id size align kind tag|slot|algo mb ma reuse| |ds ord|]; cbn [wop_ok] in Hok.
   - (* user allocation *)
     destruct (user_alloc (w_st w) id size align kind tag) as [st' r] eqn:Hu.
@@ -2798,12 +2798,12 @@ Proof.
       intros Ho. destruct (C Ho) as (C1 & C2). split; [|exact C2].
       eapply Forall_impl; [|exact C1]. intros m. apply reserved_ext. exact Hext. }
     destruct r; cbn [fst snd]; intros _ Hd;
-      [exact Hgo|exact Hgo|exact Hgo|constructor; auto|cbn in Hd; discriminate].
+      [exact Hgo|exact Hgo|exact Hgo|exact HWI|cbn in Hd; discriminate].
   - (* user free *)
-    destruct (slot <? 0); [cbn; intros; constructor; auto|].
-    destruct (entry (w_st w) (Z.to_nat slot)) as [e|] eqn:He; [|cbn; intros; constructor; auto].
-    destruct (u_temp e) eqn:Ht; [cbn; intros; constructor; auto|].
-    destruct (existsb _ (pending w)) eqn:Hb; [cbn; intros; constructor; auto|].
+    destruct (slot <? 0); [cbn; intros; exact HWI|].
+    destruct (entry (w_st w) (Z.to_nat slot)) as [e|] eqn:He; [|cbn; intros; exact HWI].
+    destruct (u_temp e) eqn:Ht; [cbn; intros; exact HWI|].
+    destruct (existsb _ (pending w)) eqn:Hb; [cbn; intros; exact HWI|].
     destruct (free_slot (w_st w) (Z.to_nat slot)) as [st' k] eqn:Hf.
     assert (Hgo : k <> RPanic -> WInv (w_set_st w st')).
     { intros Hk. constructor; cbn [w_set_st w_st w_ctx w_open w_begun w_max_allocs]; auto.
@@ -2821,8 +2821,8 @@ Proof.
     destruct k; cbn [fst snd]; intros _ Hd;
       [apply Hgo; discriminate|apply Hgo; discriminate|apply Hgo; discriminate|cbn in Hd; discriminate].
   - (* BEGIN *)
-    destruct (w_open w) eqn:Ho; [cbn; intros; constructor; auto|].
-    destruct ((algo <? 0) || (2 <? algo)); [cbn; intros; constructor; auto|].
+    destruct (w_open w) eqn:Ho; [cbn; intros; exact HWI|].
+    destruct ((algo <? 0) || (2 <? algo)); [cbn; intros; exact HWI|].
     cbv zeta. cbn [fst snd]. intros _ _. constructor; cbn [w_st w_ctx w_open w_begun w_max_allocs]; auto.
     intros c Hc. injection Hc as <-.
     destruct (w_ctx w) as [c0|] eqn:Hc0.
@@ -2831,9 +2831,9 @@ Proof.
       * split; [lia|]. split; [reflexivity|discriminate].
     + cbn [c_immovable c_moves]. split; [lia|]. split; [reflexivity|discriminate].
   - (* PASS *)
-    destruct (w_begun w) eqn:Hbg; cbn [negb]; [|cbn; intros; constructor; auto].
-    destruct (w_open w) eqn:Ho; [cbn; intros; constructor; auto|].
-    destruct (w_ctx w) as [c|] eqn:Hc; [|cbn; intros; constructor; auto].
+    destruct (w_begun w) eqn:Hbg; cbn [negb]; [|cbn; intros; exact HWI].
+    destruct (w_open w) eqn:Ho; [cbn; intros; exact HWI|].
+    destruct (w_ctx w) as [c|] eqn:Hc; [|cbn; intros; exact HWI].
     destruct (Hctx c eq_refl) as (A & B & _). specialize (B eq_refl).
     pose proof (lim_ge0 (w_max_bytes w)) as Hmb. pose proof (lim_ge1 _ (Hlim eq_refl)) as Hma.
     destruct (collect_moves (w_st w) c (pass_init (lim (w_max_bytes w)) (lim (w_max_allocs w)))) as [cs r] eqn:Hcol.
@@ -2846,9 +2846,9 @@ Proof.
     all: apply NoDup_app_intro; auto; intros x Hx1 Hx2; apply in_map_iff in Hx1; destruct Hx1 as (m1 & <- & H1);
       apply in_map_iff in Hx2; destruct Hx2 as (m2 & E & H2); apply (N3 m1 m2 H1 H2); symmetry; exact E.
   - (* END *)
-    destruct (w_ctx w) as [c|] eqn:Hc; [|cbn; intros; constructor; auto].
-    destruct (w_pass w) as [p|]; [|cbn; intros; constructor; auto].
-    destruct (w_open w) eqn:Ho; cbn [negb]; [|cbn; intros; constructor; auto].
+    destruct (w_ctx w) as [c|] eqn:Hc; [|cbn; intros; exact HWI].
+    destruct (w_pass w) as [p|]; [|cbn; intros; exact HWI].
+    destruct (w_open w) eqn:Ho; cbn [negb]; [|cbn; intros; exact HWI].
     destruct (Hctx c eq_refl) as (A & _ & C). destruct (C eq_refl) as (C1 & C2).
     destruct (r_kind (complete_pass (w_st w) c p ds ord)) eqn:Hk; cbn [fst snd wout_ok]; intros Hout Hd;
       try tauto; try (cbn in Hd; discriminate).
@@ -2856,7 +2856,7 @@ Proof.
     constructor; cbn [w_st w_ctx w_open w_begun w_max_allocs]; auto.
     intros c' Hc'. injection Hc' as <-. split; [pose proof (complete_pass_immovable (w_st w) c p ds ord); lia|].
     split; [intros _; exact Hmv|discriminate].
-  - cbn. intros. constructor; auto.
+  - cbn. intros. exact HWI.
 Qed.
 
 Lemma world_init_inv sizes sentinel : Forall (fun s => 0 <= s) sizes -> WInv (world_init sizes sentinel).
